@@ -223,7 +223,7 @@ theorem leaf_cmp (ch : Node) (fv : Val) (op : Op) (right : Seg) (hl : ch.isLeaf 
             · subst hbool
               have htu := kindOfName_bool _ hkd
               have htn : (i.typn == "bool") = true := by
-                simp only [EmitOK, boolSpelled, htu] at hb
+                simp only [EmitOK, boolSpelled, htu, hp'] at hb
                 simpa using hb
               simp only [htn, if_true]
               cases fv <;> simp [wtScalar] at hsc
@@ -497,7 +497,7 @@ theorem cmpN_correct (op : Op) (right : Seg) (p : List Seg) : ∀ (n : Node) (v 
           simp only [ptr_slice] at hes
           have hes' : targetOf i.ptr v = Val.slice nl es c := hes
           have hwfe : NodeWF e = true := by simpa [NodeWF] using hwf
-          simp only [EmitOK, Bool.and_eq_true, Bool.not_eq_true'] at hok
+          simp only [EmitOK, hb', Bool.false_or, Bool.and_eq_true, Bool.not_eq_true'] at hok
           simp only [navV, cmpN, hnil', hb', isLeaf_slice, ptr_slice, hes, hes', Bool.false_eq_true, if_false]
           cases hpi : s.pi with
           | none => simp [cmpAcceptsNav]
